@@ -70,7 +70,8 @@ TEXT_ATOMS = ["&amp;lt;", "&amp;#60;", "&amp;amp;", "a", "b", "x", "y", "1", " "
 COMMENTS = ["<!--c-->", "<!---->", "<!-->", "<!--->", "<!--a--!>", "<!-- -- -->", "<!--a--", "<!--", "<!x>", "<!>", "<?pi?>", "<?",
             "</ x>", "</>", "<!--<!---->", "<!--a-b--c--->", "<!--\x00-->", "<!---\x00-->", "<!--a\r\nb-->", "<!-- <p> -->",
             "<!--[if x]>", "<![endif]-->", "<!-"]
-DOCTYPES = ["<!DOCTYPE x SYSTEM \"a\">", "<!DOCTYPE html SYSTEM '\"a'>", "<!DOCTYPE html SYSTEM 'a\"b'>", "<!DOCTYPE html PUBLIC \"p\" 'a\"b'>", "<!DOCTYPE html PUBLIC 'a\"b'>", "<!DOCTYPE html SYSTEM \"a'b\">",
+DOCTYPES = ["<!DOCTYPE html PUBLIC \"\">", "<!DOCTYPE html SYSTEM ''>", "<!DOCTYPE html PUBLIC \"\" \"\">", "<!DOCTYPE html PUBLIC \"-//W3C//DTD HTML 4.01//EN\" \"\">",
+            "<!DOCTYPE x PUBLIC '' 'sys'>", "<!DOCTYPE x SYSTEM \"a\">", "<!DOCTYPE html SYSTEM '\"a'>", "<!DOCTYPE html SYSTEM 'a\"b'>", "<!DOCTYPE html PUBLIC \"p\" 'a\"b'>", "<!DOCTYPE html PUBLIC 'a\"b'>", "<!DOCTYPE html SYSTEM \"a'b\">",
             "<!DOCTYPE html>", "<!doctype html>", "<!DOCTYPE>", "<!DOCTYPE html PUBLIC \"-//W3C//DTD HTML 4.01//EN\">",
             "<!DOCTYPE html PUBLIC \"-//W3C//DTD HTML 4.01 Transitional//EN\">",
             "<!DOCTYPE html PUBLIC \"-//W3C//DTD HTML 4.01 Transitional//EN\" \"http://www.w3.org/TR/html4/loose.dtd\">",
